@@ -58,6 +58,11 @@ def add_proxy_plugin(reg, hooks='identity'):
                      assumed=True, modifies=[], result='bool', raises=({} if ident else {'Exception': []}))
     reg.contract('<plugin>', 'ProxyBasePlugin.do_intercept', params={'request': ('obj', 'HttpParser')},
                  self_cls='ProxyBasePlugin', assumed=True, modifies=[], result='bool', raises={})
+    reg.contract(SV, 'HttpProxyPlugin._tls_intercept_enabled', self_cls='HttpProxyPlugin', assumed=True, result='bool',
+                 modifies=[], raises={}, note='pure predicate over flags and plugin opt-outs (C11)')
+    reg.contract(SV, 'HttpProxyPlugin.handle_pipeline_response', params={'raw': 'mv'}, self_cls='HttpProxyPlugin',
+                 assumed=True, modifies=['self.pipeline_response'], raises={},
+                 note='bookkeeping only (A-PARSE)')
     reg.contract('<env>', 'ConnPool.release', params={'conn': ('obj', 'TcpServerConnection')}, self_cls='ConnPool',
                  assumed=True, modifies=[], raises={}, note='upstream connection pool (out of scope: requires not enable_conn_pool)')
     reg.contract(SV, 'HttpProxyPlugin.emit_response_events', params={'chunk_size': 'int'}, self_cls='HttpProxyPlugin',
